@@ -1,0 +1,29 @@
+/**
+@file
+Instrumentation points for external verification harnesses.
+
+Without IGRIS_VERIF the macros expand to nothing. With IGRIS_VERIF defined the
+harness has to supply
+
+    extern "C" void igris_verif_point(const char *name, const void *obj);
+
+which is called at every synchronisation point (`name` identifies the point,
+`obj` the synchronisation object about to be used, or NULL).
+*/
+#ifndef IGRIS_UTIL_VERIF_POINT_H
+#define IGRIS_UTIL_VERIF_POINT_H
+
+#ifdef IGRIS_VERIF
+#ifdef __cplusplus
+extern "C" void igris_verif_point(const char *name, const void *obj);
+#else
+void igris_verif_point(const char *name, const void *obj);
+#endif
+#define IGRIS_VERIF_POINT(name) igris_verif_point((name), 0)
+#define IGRIS_VERIF_POINT_OBJ(name, obj) igris_verif_point((name), (obj))
+#else
+#define IGRIS_VERIF_POINT(name) ((void)0)
+#define IGRIS_VERIF_POINT_OBJ(name, obj) ((void)0)
+#endif
+
+#endif
